@@ -50,6 +50,7 @@ def setup(single_thread=True):
 	f = os.path.realpath(tangermeme.__file__)
 	if not f.startswith(os.path.realpath(REPO)):
 		raise RuntimeError("tangermeme imported from %s, not from %s" % (f, REPO))
+	numba_seed(0)        # compile the seeding helper once, before any fork
 	if single_thread:
 		import torch
 		try:
@@ -72,3 +73,22 @@ def tree_id():
 		return head + ("+dirty" if dirty else "")
 	except Exception:
 		return "unknown"
+
+
+_NB_SEED = None
+
+
+def numba_seed(s):
+	"""Seed numba's own (per-thread) generator of the calling thread.  numba
+	re-seeds it from OS entropy in every new thread and after every fork, so it
+	is a nondeterminism source the simulator has to pin explicitly."""
+	global _NB_SEED
+	if _NB_SEED is None:
+		import numba
+		import numpy
+
+		@numba.njit
+		def _seed(x):
+			numpy.random.seed(x)
+		_NB_SEED = _seed
+	_NB_SEED(int(s) % (2 ** 32 - 1))
